@@ -50,7 +50,9 @@ fn gen_items(rng: &mut Rng, n: usize, consts: bool) -> Vec<GItem> {
         let (text, is_const, nm) = match kind {
             0 | 1 => {
                 let nf = rng.range(1, 3);
-                let mut t = format!("#[typeshare]\npub struct {name} {{\n");
+                // container-level renames: the sort key and the printed name then differ
+                let ren = if rng.chance(1, 3) { format!("#[serde(rename = \"{}{}\")]\n", ["Zz", "Aa", "Mm"][rng.below(3)], name) } else { String::new() };
+                let mut t = format!("#[typeshare]\n{ren}pub struct {name} {{\n");
                 for _ in 0..nf {
                     let fs = stems.fresh(rng);
                     t.push_str(&format!("    pub {}: {},\n", snake_name(&fs, rng), refty(rng, &types)));
@@ -59,7 +61,8 @@ fn gen_items(rng: &mut Rng, n: usize, consts: bool) -> Vec<GItem> {
                 (t, false, name.clone())
             }
             2 => {
-                let mut t = format!("#[typeshare]\n#[serde(tag = \"type\", content = \"content\")]\npub enum {name} {{\n");
+                let ren = if rng.chance(1, 3) { format!("#[serde(rename = \"{}{}\")]\n", ["Zz", "Aa", "Mm"][rng.below(3)], name) } else { String::new() };
+                let mut t = format!("#[typeshare]\n{ren}#[serde(tag = \"type\", content = \"content\")]\npub enum {name} {{\n");
                 let vs = stems.fresh(rng);
                 t.push_str(&format!("    {},\n", cap(&vs)));
                 let vs2 = stems.fresh(rng);
